@@ -365,9 +365,16 @@ def opt_case(spec, pid):
                     hit("corpus_both_within_expectation")
                     v = "ok"
             if v != "ok":
-                culprit = optcommon.attribute(m, o, lambda x: _okish(optcommon.equivalent(m, x, feeds_list, base_main, nondet=nondet)[0]), fired, known,
-                                              first=("fold:" if v == "dtype" else None))
-                res["c03"].append({"key": _key(culprit, v), "what": f"{o['api']}({_optstr(o)}) changes the result [{v}]: {d}",
+                if v == "load" and _TAPE_SSA.search(str(d)):
+                    # every TapeBuilder numbers its values val_0, val_1, ...; when nodes are created both inside a body and in an
+                    # enclosing graph the names collide and onnx_ir's NameFixPass leaves them (inner scope first): one finding,
+                    # whichever evaluator / rule created the nodes
+                    culprit, kkey = "any", "mech=any;kind=ssa_tape_name"
+                else:
+                    culprit = optcommon.attribute(m, o, lambda x: _okish(optcommon.equivalent(m, x, feeds_list, base_main, nondet=nondet)[0]), fired, known,
+                                                  first=("fold:" if v == "dtype" else None))
+                    kkey = _key(culprit, v)
+                res["c03"].append({"key": kkey, "what": f"{o['api']}({_optstr(o)}) changes the result [{v}]: {d}",
                                    "detail": {"opts": o, "case": label, "fired": list(dict.fromkeys(fired))[:20], "kind": v}})
                 hit("mismatch")
         # ---- C04: overridable initializer-inputs
@@ -382,6 +389,11 @@ def opt_case(spec, pid):
     res["nontrivial"] = bool(all_fired)
     res["sig"] = "|".join(sorted(all_fired))
     return res
+
+
+import re as _re
+
+_TAPE_SSA = _re.compile(r"'val_\d+' has been used as output names multiple times")
 
 
 def _okish(v):
